@@ -56,6 +56,7 @@ func init() {
 			{ID: "C09-R30", Title: "fields accessed through sync/atomic are always accessed that way", Floor: 1, Run: atomicFieldsAreAlwaysAccessedAtomically},
 			{ID: "C09-R31", Title: "the virtual OS keeps no map of the host", Floor: 1, Run: theVirtualOSKeepsNoMapOfTheHost},
 			{ID: "C09-R32", Title: "the front end keeps no package-level state written after initialisation (shared with C05-R4)", Floor: 3, Run: c05r4},
+			{ID: "C09-R33", Title: "what a table may not hold is not dereferenced (shared with C03-R42)", Floor: 1, Run: whatATableMayNotHoldIsNotDereferenced},
 		},
 	})
 }
